@@ -170,6 +170,7 @@ package goproxytest
 //@   at call txtar.ParseFile#2: requires file == txtName && gParsed == old(gParsed) + 1 && notExist(err)
 //@   at call filepath.WalkDir#1: requires root == name && gParsed == old(gParsed) + 2 && notExist(err)
 //@   ensures gParsed >= old(gParsed) + 1
+//@   ensures r != nil
 // The directory walk: the file read is the one being visited; directories add nothing.
 //@ pure func isDirEntry(e int) bool
 //@ extern (io/fs.DirEntry).IsDir(e) (r)
